@@ -85,7 +85,9 @@ Inductive bres :=
 | Panicked (v : value)
 | Exited (c : Z).                       (* the process is gone: os.Exit(c) was called *)
 
-(* mg/deps.go:102-119: what one goroutine of runDeps adds to (exit, errs) *)
+(* mg/deps.go:102-119: what one goroutine of runDeps adds to (exit, errs).  Every failing member is recorded: the
+   message text plays no role (two members failing with the same text are two failures), so it is not in the model;
+   the harness runs dependency sets whose members fail with identical texts against it. *)
 Record acc := { a_exit : Z; a_nerrs : nat }.
 
 Definition dep_report (a : acc) (r : bres) : acc :=
@@ -253,7 +255,8 @@ Definition child_of (fixed : bool) (cp : cprog) : child :=
 
 (* ------------------------------------------------------------------ the mage front end *)
 Record fargs := {
-  fa_parse : flagparse;       (* result of fs.Parse(args) *)
+  fa_parse : flagparse;       (* result of fs.Parse(args); its error is kept in the named result err and returned at the end,
+                                 whatever options were parsed before it (-w, -d, -v, -t, -gocmd, -f, -keep ... do not reset it) *)
   fa_help : bool; fa_init : bool; fa_compile : bool (* -compile <non-empty> *); fa_version : bool; fa_clean : bool;
   fa_goosarch : bool;         (* -goos or -goarch given non-empty *)
   fa_force : bool;            (* -f *)
